@@ -1,1 +1,25 @@
-(* placeholder replaced below *)
+(* C01 — Session state machine is well-formed after every sprint.
+   Statements only; proofs are in proofs/EngineProofs.v.  Model: model/Engine.v (start, resume_session).
+
+   Clause 1 of the statement ("after every engine call that returns without error the session is
+   waiting, completed or failed — never still active").  An engine call of the model returns without
+   error exactly when its result is [ROk]. *)
+From Coq Require Import List NArith ZArith Bool.
+From Verif Require Import model.Lang model.Engine proofs.EngineProofs.
+Import ListNotations.
+Open Scope N_scope.
+
+(* for every asset store (any flow graphs), trigger and flow: a session that was started is settled *)
+Theorem c01_status_after_start : forall (a : assets) (t : trigger) (flow : id) (x' : st),
+  start a t flow = ROk x' ->
+  s_status (session_ x') = SWaiting \/ s_status (session_ x') = SCompleted \/ s_status (session_ x') = SFailed.
+Proof. exact start_settled. Qed.
+Print Assumptions c01_status_after_start.
+
+(* for every session whatsoever (reachable or not), every asset store (also one that changed since
+   the session was last run) and every resume: a resume that returns without error leaves the session settled *)
+Theorem c01_status_after_resume : forall (a : assets) (s : session) (r : resume) (tmo : text) (x' : st),
+  resume_session a s r tmo = Resumed (ROk x') ->
+  s_status (session_ x') = SWaiting \/ s_status (session_ x') = SCompleted \/ s_status (session_ x') = SFailed.
+Proof. exact resume_settled. Qed.
+Print Assumptions c01_status_after_resume.
